@@ -64,7 +64,9 @@ CHECKS["C06"] = {
             "evaluated inside Coq on the IR of every accepted program of the run -- per-program translation validation of the real output, since the same run "
             "establishes token-for-token equality of the model's IR and tir::build's IR (and where they differ the checker runs on the implementation's IR). "
             "Programs: every switch skeleton with <= 2 (thorough 3) clauses x default position x clause bodies, if/else x tails, plus type-directed generated "
-            "bindings and callbacks. The general theorem over ALL programs (C06_builder_ok_full) is stated but not proved. Two genuine defects found by this "
+            "bindings and callbacks. Proved for ALL programs, class environments and builder states (C06_builder_frame, by induction over the whole model of "
+            "typedexpr.rs + tir/builder.rs): the translator never renumbers or retypes a local, never removes a block and never touches a block that has its "
+            "terminator -- a jump once written keeps its meaning. The general theorem that every accepted program passes the checker (C06_builder_ok_full) is stated but not proved. Two genuine defects found by this "
             "check were repaired by fix: commits (F2/F14, F18).",
     "technique": "Coq soundness proof of a CFG/dataflow checker + per-program evaluation of the verified checker on the real IR (translation validation) + differential execution model/code",
     "design_ref": "5 C06",
